@@ -2,6 +2,7 @@ import EaselModel.Alphabet.ObjModel
 import EaselModel.Alphabet.Sq2Lemmas
 import EaselModel.Alphabet.ValidateLemmas
 import EaselModel.Alphabet.SqLemmas
+import EaselModel.Alphabet.Round4Lemmas
 /-! # C08 (round 6) — `esl_sq_Grow` / `esl_sq_GrowTo` cover what the caller will write; the mode-changing operations on an
 `ESL_SQ` with markup never touch a markup buffer outside its allocation, keep the markup aligned with the residues, and
 `esl_sq_ReverseComplement` drops it -/
@@ -395,3 +396,28 @@ theorem copyTo_spec (a : Alphabet) (o : SqObj) (h : o.Inv) (toDigital : Bool) :
 
 end SqObj
 end EaselModel.Alphabet.Sq
+
+namespace EaselModel.Alphabet.Guess
+
+theorem msaGuessV_false (g : List Int → Nat) (rows : List (List Nat)) : msaGuessV false g rows = msaGuess g rows := by
+  unfold msaGuessV msaGuess; simp
+
+/-- **`esl_msa_GuessAlphabet`, both forms**: the vote over the per-row answers if it decides; otherwise — `strict` (the
+    documented behaviour): indeterminate as soon as some row was classified (amino and nucleic rows both occur), the pooled
+    composition only when NO row was classified; not `strict`: always the pooled composition. Never a fault. -/
+theorem msaGuessV_spec (strict : Bool) (g : List Int → Nat) (rows : List (List Nat)) :
+    msaGuessV strict g rows = some (
+      let types := rows.map fun r => g (sqCount r (List.replicate 26 0) 0)
+      let t := msaVote types
+      if t ≠ 0 then (true, t)
+      else if strict && types.any (· != 0) then (false, 0)
+      else (decide (g (sqCount rows.flatten (List.replicate 26 0) 0) ≠ 0), g (sqCount rows.flatten (List.replicate 26 0) 0))) := by
+  unfold msaGuessV
+  simp only []
+  split
+  · rfl
+  · split
+    · rfl
+    · rw [msaPool_spec rows _ 0 (by simp) (by omega)]; rfl
+
+end EaselModel.Alphabet.Guess
